@@ -113,6 +113,14 @@ CHECKS = {
                  "element with the Lean division; identity, exact multiples, constant divisors, degrees and the operator "
                  "spellings are checked with exact dictionary arithmetic.",
          "note": BASE_NOTE + " Termination is not proved (argument in DESIGN.md 5/C05); floating point only on dyadic coefficients where every quotient step is exact."},
+ "C13": {"ref": "5/C13", "technique": "Lean 4 proof of the header codec (split/join, decimal digits) and of the logical reduce round trip + correspondence on real pickles/files",
+         "text": "header_roundtrip: names, storage keys and shape written into the text header parse back exactly, for "
+                 "every number of names/terms and every shape incl. 0-d, whenever no name/key contains the separators "
+                 "(splitSep_joinSep, ofDigits_digits proved from scratch); rows_restored: reshape(-1, nterms) undoes "
+                 "numpy.loadtxt's squeezing; reduce_roundtrip via C03. Pickle protocols 0-5, copy, deepcopy, .copy() and "
+                 "savetxt/loadtxt over fmt/delimiter/header/comments x StringIO/BytesIO/paths run for real; the header "
+                 "line written by the implementation is compared with the Lean codec; plain files must load as arrays.",
+         "note": BASE_NOTE + " The pickle byte format, copy's C paths and numpy's number formatting/parsing are exercised, not modelled."},
 }
 CLAIMED = set(CHECKS)
 NOT_APPLICABLE = {f"C{i:02d}": "check under construction in this session (will be claimed once built)"
